@@ -96,6 +96,14 @@ class Session:
             UserDeleteEdge(t, (op["u"], op["v"]))
         elif k == "addnode":
             attrs: dict[str, Any] = {}
+            buf = None
+            if op.get("reuse_attrs"):
+                # a caller that keeps ONE attributes dict as a template: it overwrites the keys it
+                # sets itself and leaves whatever else is in the dict (nothing, unless the library
+                # wrote into it)
+                buf = self.__dict__.setdefault("_attrs_buf", {})
+                for key_ in self.__dict__.get("_attrs_mine", ()):
+                    buf.pop(key_, None)
             if op.get("time") is not None:
                 attrs["time"] = op["time"]
             if op.get("tid") is not None:
@@ -119,6 +127,10 @@ class Session:
                 px = tuple(np.zeros(n_, dtype=np.int64) for _ in range(c.ndim))
             else:
                 px = c.idx_tuple(op["pixels"]) if op.get("pixels") else None
+            if buf is not None:
+                self._attrs_mine = set(attrs)
+                buf.update(attrs)
+                attrs = buf
             UserAddNode(t, op["id"], attrs, pixels=px, force=bool(op["force"]))
         elif k == "delnode":
             if op.get("pixels") is not None:
@@ -742,6 +754,8 @@ def run_session(prop: str, spec: dict, rng: random.Random, nops: int, res: Resul
             pending.append(dict(op, recompute=1))
             op = dict(op, recompute=0)
             res.count("session-shape:enable-assumed-then-recomputed")
+        if queue is None and op["op"] == "addnode" and rng.random() < 0.35:
+            op["reuse_attrs"] = 1   # the caller passes the same dict object it used for earlier adds
         if prop in ("C07", "C09") and queue is None and op["op"] == "addnode" and case.cfg == "seg" and op.get("pixels") is None:
             op.pop("pos", None)  # a node without pixels is outside C07's consistent states (caller's choice)
         if prop == "C11" and queue is None and op["op"] == "paint" and op.get("value") and rng.random() < 0.15:
